@@ -144,11 +144,9 @@ def r1(ctx, modname, cases, mr):
         msg = next((k.value for k in c.keywords if k.arg == "message"), c.args[0] if c.args else None)
         sends.append((n, _class_chain(ctx, m, cc.expand(msg, n)) if msg is not None else []))
     guard_ok = False
-    for t in cc.tests(lambda e: isinstance(e, ast.Compare) and dotted(e.left) == "self._state" and isinstance(e.ops[0], ast.Eq)):
-        if (dotted(t.ast.comparators[0]) or "").endswith(".CONNECTING"):
-            tb = cc.branch(t, "true")
-            if st and all(cc.cfg.dominates(tb.id, n.id) for n, _ in st):
-                guard_ok = True
+    for tb in cc.eq_branches("self._state", lambda v: (dotted(v) or "").endswith(".CONNECTING")):
+        if st and all(cc.cfg.dominates(tb.id, n.id) for n, _ in st):
+            guard_ok = True
     first = [ch for n, ch in sends if ch == steps[0][1] and st and cc.cfg.dominates(st[0][0].id, n.id) or (st and ch == steps[0][1] and cc.cfg.exists_path(st[0][0].id, n.id))]
     ctx.check(len(st) == 1 and guard_ok and bool(first), R, f"{gen}:step0:connected->version-request", m, cc.node, "on the first connection (state CONNECTING) the state advances once and ExtendedMessage(ConsoleVersionRequest()) is sent", f"state assignments: {[s for _, s in st]}; sends: {[c for _, c in sends]}")
     ctx.require(len(st) >= 1, f"{m.relpath}: _connection_changed no longer advances the state")
